@@ -26,6 +26,63 @@ func checkC07(r *Report, p *Program) {
 	// claims that are filtered are also what gets persisted (shared with C09); revisions' parents are private copies (C17)
 	r09_5(r, p)
 	r17_1(r, p)
+	// what a revision's hook sees is computed in this sync from this sync's parent (no memo across syncs); a failed
+	// claim/revision write stops the sync (shared with C02/C09)
+	noNewCrossSyncState(r, p, "R07.7")
+	errorRule(r, p, "R07.8", 8, func(f *ssa.Function) bool {
+		file := p.File(f)
+		return strings.HasSuffix(file, "composite/controller_revision.go") || strings.HasSuffix(file, "composite/rolling_update.go") || strings.HasSuffix(file, "controllerref/controller_revision.go")
+	})
+	r07_9(r, p)
+}
+
+// r07_9: which fields are revisioned. The default (all of spec) applies whenever the
+// configured list is absent OR empty; an empty list used as is revisions nothing,
+// every spec edit is then "the same revision" and all children change at once.
+func r07_9(r *Report, p *Program) {
+	const rule = "R07.9"
+	r.Rule(rule, "syncRevisions: the field paths handed to makePatch are the configured ones only when RevisionHistory is set AND non-empty; otherwise [\"spec\"]")
+	r.Floor(rule, 1)
+	f := fn(r, p, rule, "controller/composite.parentController.syncRevisions")
+	if f == nil {
+		return
+	}
+	mps := callsTo(f, false, "composite.makePatch")
+	if len(mps) == 0 {
+		r.Fail(rule, FK(f), p.Pos(f.Pos()), "anchor-lost", "no makePatch call in syncRevisions")
+		return
+	}
+	ok, why := true, ""
+	for _, mp := range mps {
+		fp := mp.Common().Args[1]
+		ph, isPhi := fp.(*ssa.Phi)
+		if !isPhi {
+			ok, why = false, "field paths "+E(fp)+" are not chosen between the configured list and the default"
+			continue
+		}
+		for i, e := range ph.Edges {
+			if !strings.HasSuffix(E(e), ".FieldPaths") {
+				continue
+			}
+			// the edge carrying the configured list is taken only across 'len(FieldPaths) > 0'
+			pred := ph.Block().Preds[i]
+			w := engine.Query{Fn: f, Target: func(in ssa.Instruction) bool { return in.Block() == pred && in == pred.Instrs[len(pred.Instrs)-1] },
+				CutEdge: func(b *ssa.BasicBlock, j int, l *Lit) bool {
+					if l == nil {
+						return false
+					}
+					// 0 < len(x.FieldPaths)  or  !(len(x.FieldPaths) == 0)
+					if l.Pos && l.Op == token.LSS && E(l.X) == "0" && strings.Contains(E(l.Y), "builtin.len") && strings.Contains(E(l.Y), ".FieldPaths") {
+						return true
+					}
+					return !l.Pos && l.Op == token.EQL && strings.Contains(E(l.X), "builtin.len") && strings.Contains(E(l.X), ".FieldPaths") && E(l.Y) == "0"
+				}}.Find()
+			if w != nil {
+				ok, why = false, "the configured fieldPaths are used without testing that the list is non-empty: `revisionHistory: {}` revisions nothing, so a spec edit is not a new revision and every child is updated in the same sync; "+pathWhy(w)
+			}
+		}
+	}
+	r.Check(rule, FK(f)+"[fieldPaths-default]", p.InstrPos(mps[0].Instr), ok, "configured list only if non-empty, else [spec]", why)
 }
 
 func rolloutLoop(r *Report, p *Program, rule string) (*ssa.Function, *engine.RangeLoop, *engine.CallSite) {
@@ -412,6 +469,31 @@ func r07_5(r *Report, p *Program) {
 				return isT && !isNil && engine.SameValue(v, child)
 			}) != nil {
 				ok, why = false, "a nil desired child can be overlaid"
+			}
+			// … and for EVERY recorded name: an iteration goes on to the next name without the
+			// overlay only where that revision does not desire the child (lookup == nil); whether the
+			// child currently exists plays no part — a child recorded under an old revision that has to
+			// be re-created is re-created at THAT revision
+			if ok {
+				var inner *engine.RangeLoop
+				for _, l := range loops {
+					if l.Contains(cs.Instr.(ssa.Instruction)) && strings.HasSuffix(E(l.X), ".Names") {
+						inner = l
+					}
+				}
+				ci := cs.Instr.(ssa.Instruction)
+				w := engine.Query{Fn: f, From: []engine.Point{{B: inner.Body}}, Target: func(in ssa.Instruction) bool { return in.Block() == inner.Header },
+					CutInstr: func(in ssa.Instruction) bool { return in == ci },
+					CutEdge: func(b *ssa.BasicBlock, i int, l *Lit) bool {
+						if l == nil {
+							return false
+						}
+						v, isNil, isT := l.NilTest()
+						return isT && isNil && engine.SameValue(v, child)
+					}}.Find()
+				if w != nil {
+					ok, why = false, "a recorded name can be skipped although that revision desires the child ("+pathWhy(w)+"): the child then takes the latest revision's content while the ControllerRevisions still record it under the old one"
+				}
 			}
 		}
 	}
